@@ -269,7 +269,7 @@ def run(ctx):
             ctx.case((r, et, fieldpos), nontrivial=True)
             ctx.state("endtag_x_field", (et, fieldpos))
     ctx.sample({"dep": {"name": "n</SCRIPT>", "version": "1.0"}, "serialised": serialise(ht.HTMLDependency("n</SCRIPT>", "1.0"), None)})
-    for _ in range(ctx.budget(1500, 120000)):
+    for _ in range(ctx.budget(1500, 1000000)):
         n = rng.randint(1, 4)
         recipes = [rand_dep_recipe(rng, k) for k in range(n)]
         order = [rng.randrange(n) for _ in range(rng.randint(1, 5))]
